@@ -85,7 +85,8 @@ def argval_canon(v):
     if isinstance(v, bool) or v is None:
         return ["c", C.canon(v)]
     if isinstance(v, (int, C.long_type)):
-        return ["i", int(v)]
+        # a JSON number with thousands of digits cannot be read back on a host with the int-to-str digit limit
+        return ["i", int(v)] if -10 ** 18 < v < 10 ** 18 else ["I", C.istr(v)]
     if isinstance(v, types.CodeType):
         return ["code", v.co_name]
     if isinstance(v, C.text_type) or (PY2 and isinstance(v, str)):
